@@ -124,6 +124,9 @@ OPS = [
 def check_case(case):
     if case["kind"] == "value":
         return check_value(case["context"], case["value"])[0]
+    if case["kind"] == "scale":
+        label, model = X.scale_models("sm", case.get("thorough", False))[case["index"]]
+        return H.check_roundtrip(model, X.build_object(model))[0]
     if case["kind"] == "history":
         model, mk = initial_states()[case["init"]]
         return H.replay_history(space(), model, mk(), case["ops"])
@@ -185,6 +188,29 @@ def explore_shard(acc, shard):
         _, init_name, first_op, depth = shard
         model, mk = initial_states()[init_name]
         H.bfs(acc, space(), "B edit histories", init_name, copy.deepcopy(model), mk, OPS, depth, first_op, prop="C01")
+    elif kind == "S":
+        _, part, nparts, thorough = shard
+        layer = "S scale"
+        case = None
+        for i, (label, model) in enumerate(X.scale_models("sm", thorough)):
+            if i % nparts != part:
+                continue
+            case = {"kind": "scale", "index": i, "thorough": thorough, "label": label}
+            core.guard(acc, case)
+            fails, status = H.check_roundtrip(model, X.build_object(model))
+            acc.count("evaluations")
+            acc.count("states")
+            acc.count("transitions")
+            acc.count("nontrivial")
+            if status == "ok":
+                acc.count("roundtrips_checked")
+                acc.outcome("scale simfile")
+            else:
+                acc.count(status.split(":")[0])
+            for f in fails:
+                acc.violation(f["clause"], case, str(f["expected"])[:300], str(f["observed"])[:300], signature=("scale", f["clause"]))
+        if case:
+            acc.sample(layer, case)
     elif kind == "W":
         _, init_name = shard
         model, mk = initial_states()[init_name]
@@ -229,6 +255,8 @@ def explore(run):
     for name in initial_states():
         if "shortened" not in name:
             shards.append(("W", name))  # one long history per small initial state
+    for part in range(8):
+        shards.append(("S", part, 8, run.thorough()))
     k = run.seed % len(shards)
     shards = shards[k:] + shards[:k]
     run.merge(core.pmap(explore_shard, shards, run.seed))
@@ -247,11 +275,13 @@ def explore(run):
         + f"B: breadth-first edit histories of depth <= {depth} (corpus states {depth - 1}, bare constructor 1) over {len(OPS)} operations + serialize from {len(initial_states())} initial states with state matching on the whole object state incl. string identity. "
         "Cases in msdparser's escaping gaps are detected operationally, must match a listed pattern, and are counted. Non-trivial = has a chart, a None or a metacharacter."
         + " W: from every small initial state one uninterrupted history on one live object in which every ordered pair of operations (incl. serialize) occurs consecutively (order-2 de Bruijn sequence, about 2000 steps), compared with the model after every step, round trip every 16 steps."
+        + " S: scale simfiles - one-line lists of 7..700 entries, each of : // \\ ; at every offset in a window before 4096 and 8192 (thorough 16384, 65536) in the first property, the note data and a description, 17 / 130 / 1100 charts, 400 properties."
     )
     run.assumptions = [
         "msdparser is the trusted tokenizer/escaper; its escaping gaps are excluded operationally and reported as known findings",
         "mc/models/msd.py states the parameter list the repository must emit",
     ]
+    core.require(acc.outcomes["scale simfile"] > 0, "no scale simfile")
     core.require(acc.outcomes["long walk on one live object"] > 0, "no long walk")
     core.require(acc.c["roundtrips_checked"] > 1000, "too few round trips")
     core.require(acc.outcomes["excluded: dependency gap"] > 0, "no dependency gap seen (classifier inactive?)")
